@@ -4,6 +4,7 @@
 From stdpp Require Import gmap.
 From Coq Require Import NArith.
 From RV Require Import Ingress.IngressModel Rib.RibModel Bmp.BmpModel Bmp.BmpStreamModel Bmp.BmpStreamProofs.
+From RV Require Import Bmp.BmpWireAbs Bmp.BmpWireAbsProofs.
 Local Open Scope N_scope.
 
 (* For every script of read events (every cut point, every error kind at every
@@ -21,6 +22,18 @@ Theorem C07_cleanup_once : forall parse tl rid evs s0, SInv rid s0 ->
     (forall p pe, sm_peers (s_sm s) !! p = Some pe -> pe_id pe ∈ reg_ids_for_parent (s_reg s) rid).
 Proof. exact cleanup_once. Qed.
 Print Assumptions C07_cleanup_once.
+
+(* the same for REAL octet streams: [wire_msg] (Bmp/BmpWireAbs.v) = the decoder of the proved RFC 7854 codec
+   followed by the state machine's reading of the frame, put in for the parser (see the C06_wire theorems of Props_C06.v) *)
+Theorem C07_wire_cleanup_once : forall tl rid evs s0, SInv rid s0 ->
+  exists e rest s,
+    run_from wire_msg true tl rid evs s0 =
+      Done e rest s (s_out s ++ [GUpd (UWithdrawBulk (reg_ids_for_parent (s_reg s) rid)); GEos rid]) /\
+    (forall g, g ∈ s_out s -> is_eos g = false) /\
+    (forall g i, g ∈ s_out s -> i ∈ ids_of g -> i ∈ reg_ids_for_parent (s_reg s) rid) /\
+    (forall p pe, sm_peers (s_sm s) !! p = Some pe -> pe_id pe ∈ reg_ids_for_parent (s_reg s) rid).
+Proof. exact (cleanup_once wire_msg). Qed.
+Print Assumptions C07_wire_cleanup_once.
 
 (* the hypothesis is met by a fresh connection on ANY register, and by the
    connection the accept loop sets up *)
